@@ -165,6 +165,12 @@ impl Driver {
                 post.state.iter().map(|m| format!("{}:{}:{:?}", m.id(), m.incarnation(), m.state())).collect::<Vec<_>>(), post.updates_backlog, post.custom_backlog);
         }
         let mut vs = Vec::new();
+        if let Some(m) = &rec.twin_mismatch {
+            vs.push(Violation { property: "C08", tag: "C08/accumulating-runtime-differs".into(), detail: format!("{}: {m}", rec.input.kind()), at: step_idx });
+        }
+        if self.node.twin.is_some() {
+            self.stats.inc("c08_accumulating_runtime_twin_calls");
+        }
         self.monitors.step(&pre, &rec, &post, step_idx, &mut vs, &mut self.stats);
         self.violations.extend(vs);
         self.obs = post;
